@@ -66,6 +66,7 @@
 #include <nop/rpc/simple_method_receiver.h>
 #include <nop/rpc/simple_method_sender.h>
 #include <nop/serializer.h>
+#include <nop/status.h>
 #include <nop/structure.h>
 #include <nop/table.h>
 #include <nop/types/optional.h>
@@ -640,6 +641,17 @@ static std::string op_writer(Ctx& c, const Op& o) {
       if (!rd.Read(&got[0], &got[0] + got.size())) return "!writer: FdReader::Read failed";
     }
     if (got != want) return "!writer-skip: FdWriter / FdReader round trip produced wrong bytes";
+  }
+  {
+    // thread-owned Status objects: the text GetErrorMessage() handed out for one object must not change because
+    // another object (in this or any other thread) is asked for its message
+    nop::Status<int> known{(nop::ErrorStatus)(1 + (o.n % 18))}, odd{(nop::ErrorStatus)(1000 + c.tid * 7 + (int)(o.a & 3))};
+    const char* mk = known.GetErrorMessage(); const char* mo = odd.GetErrorMessage();
+    const std::string ck = mk ? mk : "<null>", co = mo ? mo : "<null>";
+    nop::Status<int> other{(nop::ErrorStatus)(2000 + c.tid)};
+    (void)other.GetErrorMessage();
+    for (int spin = 0; spin < 50; spin++) std::this_thread::yield();
+    if (std::string(mk ? mk : "<null>") != ck || std::string(mo ? mo : "<null>") != co) return "!status-message: the text returned by Status<int>::GetErrorMessage() changed while its owner was still holding it";
   }
   return "W h=" + hex16(hash_bytes(want));
 }
